@@ -26,7 +26,7 @@ def build_sched_harness(scratch):
     json.dump({"Replace": rep}, open(ov, "w"))
     common.build_harness()      # writes .build/harness.mod
     out = os.path.join(scratch, "harness-c13")
-    p = common.sh(["go", "build", "-modfile=" + os.path.join(common.BUILD, "harness.mod"), "-overlay", ov,
+    p = common.sh(["go", "build", "-modfile=" + common.harness_modfile(), "-overlay", ov,
                    "-tags", "verif,verif_sched", "-o", out, "."], cwd=os.path.join(common.VERIF, "harness"), env=common.GOENV, check=False)
     return out, p, swapped
 
